@@ -220,6 +220,9 @@ def run(prog, rep):
     rep.attempt(M.offset_provenance, ct, rep)
     rep.attempt(M.repoint_later, ct, rep)
     rep.attempt(M.shift_loop, ct, rep)
+    # the next block is placed at offset + nBytes: it lands on this block's tail unless nBytes == bytes written
+    from .c02 import size_identity
+    rep.attempt(size_identity, prog, cd, rep, with_consumed=False)
     # comments / labels reach the file unaltered only if the string writer refuses what does not fit instead of cutting it
     from .c13 import string_write_rules
     rep.attempt(string_write_rules, prog, rep)
